@@ -72,6 +72,9 @@ def partition(rng, schema, n_files):
     for i, g in enumerate(groups):
         inc = sorted(set(where[u] for d in g for u in uses(schema, d) if where[u] != i))
         files.append(('f%d' % i, g, ['f%d' % j for j in inc]))
+    if rng.random() < 0.35:
+        # an emptied compatibility header (no definitions, no includes) that several files still include: reached more than once
+        files = [('f_empty', [], [])] + [(leaf, g, ['f_empty'] + inc) for leaf, g, inc in files]
     return files
 
 
@@ -351,6 +354,38 @@ def patched_runs(chk, root):
                     break
 
 
+def isar_runs(chk, root):
+    """isar input lists definitions in any order; the sort that reorders them must not depend on the hash seed"""
+    from harness.gen import dag, isar
+    for si in range(chk.scale(6, 40)):
+        sc = dag.gen_dag(chk.rng, n=chk.rng.randint(6, 12), enum_heavy=(si % 2 == 0))
+        order = list(range(len(sc.decls)))
+        chk.rng.shuffle(order)
+        base = os.path.join(root, 'x%d' % si)
+        os.makedirs(base)
+        xml = isar.to_isar(sc, order)
+        open(os.path.join(base, 'a.xml'), 'w').write(xml)
+        ref = None
+        for hs in chk.scale([0, 1, 2, 3, 4242], [0, 1, 2, 3, 4, 5, 6, 7, 11, 4242, 99999]):
+            out = os.path.join(base, 'o%d' % hs)
+            os.makedirs(out)
+            rc, so, se = run_cli(['--isar', '--python_out', out, '--cpp_out', out, '--cpp_full_out', out, 'a.xml'], base, hashseed=hs)
+            casej = {'xml': xml, 'hashseed': hs}
+            chk.count(('isar', si, hs), hs != 0)
+            chk.bump('isar-hashseed')
+            if rc != 0:
+                if ref is None:
+                    break       # this definition set is not compilable with every back-end (e.g. C++ full): not a determinism question
+                chk.property_violation(casej, {'what': 'prophyc fails under this hash seed only', 'stderr': se[:400]})
+                continue
+            produced = {fn: open(os.path.join(out, fn), 'rb').read() for fn in sorted(os.listdir(out))}
+            if ref is None:
+                ref = produced
+            elif produced != ref:
+                diff = sorted(fn for fn in produced if ref.get(fn) != produced[fn])
+                chk.property_violation(casej, {'what': 'generated files differ from the run with hash seed 0', 'files': diff})
+
+
 def run_c20(tier):
     chk = core.Check('C20', tier)
     chk.rule = ('multi-file and single-file schemas compiled by `python -m prophyc` (python + C++ full + C++ raw outputs) under different '
@@ -414,6 +449,7 @@ def run_c20(tier):
                 if len(order) == len(leaves) and set(produced) != set(ref):
                     chk.property_violation(casej, {'what': 'set of generated files differs', 'reference': sorted(ref), 'this': sorted(produced)})
         patched_runs(chk, root)
+        isar_runs(chk, root)
         for (casej, impl), m in zip(crows, client.batch(creqs)):
             chk.corr_compared += 1
             want = [{'leaf': r['leaf'] + '.prophy', 'visible': r['visible'], 'parsed': r['parsed']} for r in impl] if isinstance(impl, list) else impl
